@@ -6,10 +6,16 @@ CONFIG = {
                 "group marked deleted or expired (End+Duration<now) and successfully marked earlier in the pass; marked groups hold only data "
                 "older than the retention period; infinite policies never expire; a failure-free pass on current well-formed metadata leaves "
                 "nothing expired-unmarked and no local shard of a deleted group, also after any history and on every node; MapShards drops a "
-                "point iff older than now-Duration. The model is diffed on every run against the real Service.run tick, "
-                "ExpiredShardGroups/DeletedShardGroups at exact boundaries, Data.DeleteShardGroup/PruneShardGroups and PointsWriter.MapShards.",
+                "point iff older than now-Duration; every pass of every history hands every local shard of every deleted group to DeleteShard again "
+                "(a failed local delete is retried; the service carries no memory between passes). Store.DeleteShard, for every abstract store "
+                "(shards x databases x retention policies x index types, series file, shared inmem index) and every shard id: no series that a remaining "
+                "shard of the database (any retention policy) holds leaves the series file or the shared index, every read of every remaining shard is "
+                "unchanged, the series file loses exactly the series only the deleted shard held (delete_shard_exact), the invariant of reachable stores "
+                "is preserved. The model is diffed on every run against the real Service.run (single ticks and multi-tick scenarios on a fresh service), "
+                "ExpiredShardGroups/DeletedShardGroups at exact boundaries, Data.DeleteShardGroup/PruneShardGroups, PointsWriter.MapShards, and a REAL "
+                "tsdb.Store (inmem, tsi1 and mixed) before/after DeleteShard, later writes and a reopen.",
         "note": "Trusts Coq kernel, genconsts, the harness and its fakes; one clock reading per pass (margins in the harness); "
-                "raft/meta.Client transport and tsdb.Store.DeleteShard internals are outside the model; ShardGroupAt's search is modelled as 'some item contains t'. "
+                "raft/meta.Client transport, and of Store.DeleteShard the pending-delete/epoch bookkeeping (C10), failing Index() of a closed shard and file-system errors are outside the model; ShardGroupAt's search is modelled as 'some item contains t'. "
                 "Observed boundary (not a violation): shards whose group was pruned from the metadata while their node was away are never deleted.",
         "technique": "Coq proof (fold invariants, first-match update lemmas under name uniqueness) on a Gallina model + differential correspondence against the real retention service",
     },
@@ -17,27 +23,39 @@ CONFIG = {
     "level": "proof",
     "n": {"quick": 1500, "thorough": 20000},
     "shard": 150,
-    "extra_proof_files": ["ProofsComplete", "ProofsHist"],
+    "extra_proof_files": ["ProofsComplete", "ProofsHist", "ProofsRetry", "StoreProofs", "StoreLink", "StoreSpec"],
     "rule": "designed cases (3 durations x 4 boundary offsets x 5 failure oracles through the real service tick; exact-boundary End+Duration==t, t+-1ns, "
             "infinite, negative, deleted, truncated through ExpiredShardGroups(t); MapShards around the cut-off) then seeded generation: scenarios of 1-4 "
             "consecutive ticks of the real retention.Service (gated through its fakes) over generated metadata (1-3 databases x 0-2 policies x 0-4 groups, "
             "20% malformed: duplicate names/IDs, negative durations), local shard sets incl. unknown shards, per-call fault injection (error, error-with-effect), "
             "environment changes between ticks (ALTER duration, time passing, new group, truncate, drop policy, stale snapshot, shards reappearing); "
             "ExpiredShardGroups/DeletedShardGroups with explicit t incl. int64 extremes; MapShards batches with pre-existing/truncated groups. "
-            "distinct = distinct input; non-trivial = at least one DeleteShardGroup/DeleteShard call (pass), non-empty group list (exp), non-empty batch (drop)",
+            "Each scenario runs on its own fresh retention.Service and is recorded as ONE case (kind scen) so that anything the service keeps from tick "
+            "to tick is replayed; policies' group lists are sorted by time with IDs in creation order (back-filled groups: non-monotone IDs) in 70% of the "
+            "policies. Store cases (kind store): 1-2 databases x 1-3 policies x 1-3 shards, index inmem / tsi1 / mixed, up to 3x3 series keys overlapping "
+            "across shards and policies, 1-5 operations (DeleteShard of an existing / unknown / already deleted shard, a later write possibly re-creating "
+            "a removed series, close+reopen) and a final reopen; after every operation every remaining shard is read through CreateIterator and every "
+            "database through MeasurementNames, TagValues, SeriesCardinality and series-file membership. "
+            "distinct = distinct input; non-trivial = at least one DeleteShardGroup/DeleteShard call (pass, scen), non-empty group list (exp), non-empty "
+            "batch (drop), at least one DeleteShard on a store with series (store)",
     "trusted_base": [
         "C17: the real Service.run goroutine is driven unmodified; a tick is delimited by its calls to MetaClient.Databases() (fake blocks until the next input); no verif_export hook is needed",
-        "C17: fake MetaClient = real meta.Data (DeleteShardGroup, PruneShardGroups applied to it) + snapshot semantics of meta.Client.Databases(); fake TSDBStore = recording set; raft transport and tsdb.Store.DeleteShard are not exercised",
+        "C17: fake MetaClient = real meta.Data (DeleteShardGroup, PruneShardGroups applied to it) + snapshot semantics of meta.Client.Databases(); fake TSDBStore = recording set in the service cases; raft transport is not exercised",
+        "C17: store cases drive a real tsdb.Store on a temporary directory (compactions disabled); series-file membership is read through the add-only hook tsdb/verif_export_c17.go (Store.VerifSeriesFile); series keys are m<i>,t=v<j>, one integer field, strictly increasing timestamps per series (no overwrites); the model takes the described content as the abstract state and the first observation checks that the real store agrees with it",
+        "C17: lists in store observations are compared as sets; a series key stands for its series id (the series file maps keys to ids bijectively per database)",
         "C17: wall clock: inputs are offsets from one reading now0; offsets avoid [0,10s) above each boundary so that later readings in the same scenario (<4s) cannot flip a comparison; DeletedAt stamped during a tick is canonicalised to now0; exact boundaries are covered through ExpiredShardGroups(t) with explicit t",
         "C17: ShardGroupDeletedExpiration, MinNanoTime and the shape of the expiry test are re-read from the source by genconsts on every run",
     ],
     "modelled": "services/retention/service.go run() tick body, meta RetentionPolicyInfo.ExpiredShardGroups/DeletedShardGroups, Data.DeleteShardGroup, Data.PruneShardGroups, "
-                "and the cut-off of coordinator PointsWriter.MapShards are modelled (theories/C17/Model.v); meta.Client/raft, tsdb.Store, sgList's binary search (abstracted to 'some item contains t'), "
-                "logging are not modelled",
+                "the cut-off of coordinator PointsWriter.MapShards (theories/C17/Model.v) and tsdb Store.DeleteShard with the series-file / shared-inmem-index effects of WriteToShard and of a reopen "
+                "(theories/C17/Store.v) are modelled; meta.Client/raft, sgList's binary search (abstracted to 'some item contains t'), DeleteShard's pending-delete and epoch bookkeeping, engine and "
+                "index internals below the series sets, logging are not modelled",
     "assumptions": ["one clock reading per pass: the service reads time.Now() once per policy within a tick; the model uses a single now (and arbitrary, independent meta-service clocks tdel/tprune)",
                     "time.Time arithmetic on UnixNano-representable values is exact (64-bit seconds)",
                     "completeness theorems assume unique database names, policy names per database and group IDs per policy (C06's invariant) and an up-to-date snapshot",
-                    "dropped_iff_too_old assumes CreateShardGroup returns a group accepting the timestamp (meta.Client returns ShardGroupByTimestamp)"],
+                    "dropped_iff_too_old assumes CreateShardGroup returns a group accepting the timestamp (meta.Client returns ShardGroupByTimestamp)",
+                    "store link theorem (store_spec_ok_for_all) assumes the invariant of reachable stores (healthy: established by construction, preserved by every modelled operation); the safety theorems about DeleteShard assume nothing",
+                    "a query finds a series of a shard iff the series file has it live (and, for an inmem shard, the shared index has it)"],
 }
 
 
